@@ -319,6 +319,9 @@ def run(prog, tier):
     column_rules(prog, res)
     import codec_rules as _CR
     _CR.passthrough_index_rule(prog, res)
+    # c3d::analog(name) sizes the new column from the header's sub-frame count: it must be the stored one (updater table)
+    import p_c05
+    p_c05.sync_table_rule(prog, res, rule='column-basis')
     # "every other frame is unchanged" and "exactly one column per frame" need stored frames that
     # share nothing with each other or with the caller: the C08 ownership rule, evaluated here too
     import p_c08
